@@ -100,6 +100,22 @@ func init() {
 		Outside:     []string{"depth-3 shapes, mixed shapes", "std/php/array builtins (only the data methods)", "closure capture (excluded by the property)"},
 	})
 
+	c15s := func(nn, mm int, tier string) RunDef {
+		return RunDef{Fn: "H_string", Params: map[string]int{"n": nn, "m": mm}, Tier: tier, Reach: []string{"end"}}
+	}
+	reg(Check{
+		ID:  "C15",
+		Pkg: "verif/harness/c15",
+		Runs: []RunDef{
+			{Fn: "H_array", Tier: "quick", Reach: []string{"end"}},
+			c15s(0, 0, "quick"), c15s(0, 1, "quick"), c15s(1, 0, "quick"), c15s(1, 1, "quick"), c15s(2, 0, "quick"), c15s(2, 1, "quick"), c15s(2, 2, "quick"),
+			c15s(3, 1, "thorough"), c15s(3, 2, "thorough"), c15s(4, 1, "thorough"), c15s(4, 2, "thorough"),
+		},
+		Rule:        rule + "; 31 array method cases (every arity incl. omitted optionals and 1-2 variadic items) on receivers of length 0..3 with symbolic 64-bit elements and FULL-RANGE symbolic index/count arguments (negative, zero, = length, beyond, MinInt/MaxInt inside one query), result and receiver-after-call compared with Go reference functions of the documented Node.js semantics; 11 string method cases on printable-ASCII symbolic strings",
+		Assumptions: []string{"indexOf/includes compare elements through their string form: concrete element pool {0,1,-1,7} there", "strings: printable ASCII only; substring asserted on 0 <= a <= b <= len (outside: completes without a crash)", "callbacks are function(...) use (...) closures over ordinary assigned script variables"},
+		Outside:     []string{"receivers longer than 3 (strings 4)", "sort(), join(), flat(depth) on nested lists, forEach", "multi-byte strings and the unit of length", "callbacks using the array argument"},
+	})
+
 	c17 := func(fn string, p map[string]int) RunDef {
 		return RunDef{Fn: fn, Params: p, Tier: "quick", Reach: []string{"end"}}
 	}
